@@ -1,0 +1,94 @@
+//! Limits on how deeply constructs may nest.
+//!
+//! The parser, the validator and the emitter all recurse over the structure of
+//! the source, so the nesting depth of the input is the depth of their call
+//! stacks. Source text that nests deeper than any story needs is refused with
+//! a compiler error instead of overflowing the stack.
+
+use std::cell::Cell;
+
+use crate::error::CompilerError;
+
+/// Blocks, alternatives and parentheses inside one another in the source
+/// (a level of block nesting takes some tens of KB of stack in a debug build,
+/// and hosts compile on threads with 2 MiB).
+const MAX_SOURCE_NESTING: usize = 40;
+
+/// Containers being emitted inside one another (two per group of choices of a
+/// weave, see the validator's MAX_CHOICE_GROUPS_IN_A_WEAVE).
+const MAX_EMIT_NESTING: usize = 200;
+
+/// Tokens of a single expression (an operator chain becomes a tree as deep as
+/// it is long).
+pub(crate) const MAX_EXPRESSION_TOKENS: usize = 1024;
+
+thread_local! {
+    static SOURCE_NESTING: Cell<usize> = const { Cell::new(0) };
+    static EMIT_NESTING: Cell<usize> = const { Cell::new(0) };
+}
+
+/// Held while one nested construct is being parsed or emitted.
+pub(crate) struct NestingGuard {
+    counter: &'static std::thread::LocalKey<Cell<usize>>,
+}
+
+fn enter_counted(
+    counter: &'static std::thread::LocalKey<Cell<usize>>,
+    limit: usize,
+) -> Result<NestingGuard, CompilerError> {
+    counter.with(|depth| {
+        if depth.get() >= limit {
+            return Err(CompilerError::invalid_source(format!(
+                "nested too deeply (more than {limit} levels)"
+            )));
+        }
+        depth.set(depth.get() + 1);
+        Ok(NestingGuard { counter })
+    })
+}
+
+/// Entering one more level of nesting in the source.
+pub(crate) fn enter() -> Result<NestingGuard, CompilerError> {
+    enter_counted(&SOURCE_NESTING, MAX_SOURCE_NESTING)
+}
+
+/// Entering one more container while emitting.
+pub(crate) fn enter_emit() -> Result<NestingGuard, CompilerError> {
+    enter_counted(&EMIT_NESTING, MAX_EMIT_NESTING)
+}
+
+/// `* * * ...` / `- - - ...`: the level a choice or gather line asks for is a
+/// level of nesting even when nothing is indented.
+pub(crate) fn check_marker_level(level: usize) -> Result<(), CompilerError> {
+    if level > MAX_SOURCE_NESTING {
+        return Err(CompilerError::invalid_source(format!(
+            "nested too deeply (more than {MAX_SOURCE_NESTING} levels)"
+        )));
+    }
+    Ok(())
+}
+
+/// Braces inside one another in a piece of text that is parsed later.
+pub(crate) fn check_brace_depth(text: &str) -> Result<(), CompilerError> {
+    let mut depth = 0usize;
+    for ch in text.chars() {
+        match ch {
+            '{' => depth += 1,
+            '}' => depth = depth.saturating_sub(1),
+            _ => {}
+        }
+        if depth > MAX_SOURCE_NESTING {
+            return Err(CompilerError::invalid_source(format!(
+                "nested too deeply (more than {MAX_SOURCE_NESTING} levels)"
+            )));
+        }
+    }
+    Ok(())
+}
+
+impl Drop for NestingGuard {
+    fn drop(&mut self) {
+        self.counter
+            .with(|depth| depth.set(depth.get().saturating_sub(1)));
+    }
+}
